@@ -909,13 +909,30 @@ class FnLower:
             self.brk(n, 'if with init/var')
         c = inner[0]
         thr = self.has_throwing_call(c)
-        ce = self.expr(c)
-        r = self.flush_pre()
-        if thr:
+        # probe: does an operand that is only evaluated conditionally (right of && / ||, arm of ?:) need hoisted statements?
+        save = self.pre; self.pre = []
+        self.sc_probe, self.sc_hit = True, False
+        try:
+            ce = self.expr(c)
+        finally:
+            self.sc_probe = False
+        hoisted = self.pre; self.pre = save
+        if self.sc_hit:
+            # short-circuit evaluation by statements: temporaries of the right operand exist only when it is evaluated
             t = self.tmp('verif_c')
-            r.append('_Bool %s = %s;' % (t, ce))
-            r.append(self.chk())
+            r = self.flush_pre()
+            r.append('_Bool %s = 0;' % t)
+            r += self.cond_stmts(c, t)
             ce = t
+            thr = True
+        else:
+            self.pre += hoisted
+            r = self.flush_pre()
+            if thr:
+                t = self.tmp('verif_c')
+                r.append('_Bool %s = %s;' % (t, ce))
+                r.append(self.chk())
+                ce = t
         r.append('if (%s) {' % ce)
         r += ['  ' + l for l in self.block(inner[1])]
         if len(inner) > 2:
@@ -1494,6 +1511,18 @@ class FnLower:
             cls = self.T.cls(n['type'])
             if cls not in self.cfg.plain:
                 self.brk(n, 'builtin assignment of class %s' % cls)
+        if op in ('&&', '||'):
+            ea = self.expr(a)
+            npre = len(self.pre)
+            eb = self.expr(b)
+            if len(self.pre) != npre:
+                # the right operand needs hoisted statements (a temporary, a may-throw call): evaluating them unconditionally
+                # would not be the semantics of the operator
+                if getattr(self, 'sc_probe', False):
+                    self.sc_hit = True
+                else:
+                    self.brk(n, 'hoisted temporary in the right operand of %s outside an if / loop condition' % op)
+            return '(%s %s %s)' % (ea, op, eb)
         ea, eb = self.expr(a), self.expr(b)
         if op == ',':
             return '(%s, %s)' % (ea, eb)
@@ -1511,9 +1540,12 @@ class FnLower:
 
     def e_ConditionalOperator(self, n):
         c, a, b = n['inner']
-        if self.has_throwing_call(a) or self.has_throwing_call(b):
-            pass  # checked at statement level; both arms are only evaluated when selected
-        return '(%s ? %s : %s)' % (self.expr(c), self.expr(a), self.expr(b))
+        ec = self.expr(c)
+        npre = len(self.pre)
+        ea, eb = self.expr(a), self.expr(b)
+        if len(self.pre) != npre:
+            self.brk(n, 'hoisted temporary in an arm of the conditional operator')
+        return '(%s ? %s : %s)' % (ec, ea, eb)
 
     def cast(self, n):
         ck = n.get('castKind')
